@@ -6,6 +6,9 @@ import types
 
 API_UNSPECIFIED = 0
 API_LINUX_ALSA = 2
+# every API the real library knows (a build has some of them)
+APIS = {'API_UNSPECIFIED': 0, 'API_MACOSX_CORE': 1, 'API_LINUX_ALSA': 2, 'API_UNIX_JACK': 3, 'API_WINDOWS_MM': 4,
+        'API_RTMIDI_DUMMY': 5, 'API_WEB_MIDI': 6, 'API_WINDOWS_UWP': 7, 'API_ANDROID': 8}
 
 
 class _Base:
@@ -25,7 +28,7 @@ class _Base:
         return ['Fake Port 0', 'Fake Port 1']
 
     def get_current_api(self):
-        return API_LINUX_ALSA
+        return self.rtapi if self.rtapi else API_LINUX_ALSA
 
     def open_port(self, port_id):
         self.opened = port_id
@@ -64,11 +67,11 @@ class MidiOut(_Base):
 def install():
     """Put the stand-in into sys.modules and (re)import mido.backends.rtmidi."""
     mod = types.ModuleType('rtmidi')
-    mod.API_UNSPECIFIED = API_UNSPECIFIED
-    mod.API_LINUX_ALSA = API_LINUX_ALSA
+    for k, v in APIS.items():
+        setattr(mod, k, v)
     mod.MidiIn = MidiIn
     mod.MidiOut = MidiOut
-    mod.get_compiled_api = lambda: [API_LINUX_ALSA]
+    mod.get_compiled_api = lambda: [v for k, v in sorted(APIS.items(), key=lambda kv: kv[1]) if v]
     saved = sys.modules.get('rtmidi')
     sys.modules['rtmidi'] = mod
     sys.modules.pop('mido.backends.rtmidi', None)
